@@ -30,7 +30,7 @@ namespace GeographicLib {
                     // lon12 > 0 && lon1 > 0 && lon2 == 0 implies lon1 == 180
                     (lon1 > 0 && lon2 == 0)) ? 1 :
       // non edge case lon1 = -180, lon2 = -360->-0, lon12 = -180
-      (lon12 < 0 && lon1 >= 0 && lon2 < 0 ? -1 : 0);
+      (lon12 < 0 && lon1 >= 0 && (lon2 < 0 || lon2 == Math::hd) ? -1 : 0);
     // This was the old method (treating +/- 0 as negative).  However, with the
     // new scheme for handling longitude differences this fails on:
     // lon1 = -180, lon2 = -360->-0, lon12 = -180 gives 0 not -1.
